@@ -550,4 +550,101 @@ theorem G_of_viewAt {root : Root} {r p : Nat} {vw : PView} (hG : GRoot G root) (
       subst h
       exact G_of_PAt hG ⟨rr, hr, hp⟩
 
+/-! ### next-type votes after the own cert vote (abstract rule `RNextOwnCert`) -/
+
+/-- `Period + 1 < 2^64` in every reached state (the model wraps periods only in `predPeriod` and the GC test) -/
+def PeriodsFit (l : List Snap) : Prop := ∀ x ∈ l, x.1.pl.period + 1 < 18446744073709551616
+
+/-- `b` holds whatever `a` holds -/
+def AgreeKeep (a b : Option Nat) : Prop := ∀ v, a = some v → b = some v
+
+instance (a b : Option Nat) : Decidable (AgreeKeep a b) :=
+  match a with
+  | some v => if h : b = some v then isTrue (by intro v' h'; cases h'; exact h)
+              else isFalse (fun hh => h (hh v rfl))
+  | none => isTrue (by intro v h; cases h)
+
+/-- while the player stays in (r, p), a committable value of (r, p) stays committable: the assembler of the staged value
+survives every `proposalStore.trim` -/
+def CommAgree (x y : Snap) : Prop :=
+  SamePer x.1.pl y.1.pl →
+    AgreeKeep (commVal x.1.root x.1.pl.round x.1.pl.period) (commVal y.1.root x.1.pl.round x.1.pl.period)
+def CommStable (l : List Snap) : Prop := l.Pairwise CommAgree
+
+instance (x y : Snap) : Decidable (CommAgree x y) := by unfold CommAgree; infer_instance
+instance (l : List Snap) : Decidable (PeriodsFit l) := by unfold PeriodsFit; infer_instance
+instance (l : List Snap) : Decidable (CommStable l) := by unfold CommStable; infer_instance
+
+theorem snaps_comm (hs : GSpec P good G) (hset : ∀ r p vw, G r p vw → vw.staging ≠ 0 → vw.set = true)
+    (hg : GoodSpec good) : ∀ (es : List Player.Event) (σ : State), SInv P good G σ → RunOK P good σ es → RunOKA P σ es →
+    σ.pl.period + 1 < 18446744073709551616 → PeriodsFit (snaps P σ es) →
+    ∀ y ∈ snaps P σ es, ∀ b ∈ y.2, CommFact y.1 b := by
+  intro es
+  induction es with
+  | nil => intro σ _ _ _ _ _ y hy; cases hy
+  | cons e rest ih =>
+    intro σ hI hr hra hfit hpf y hy
+    simp only [snaps] at hy hpf
+    split at hy
+    · cases hy
+    rename_i σ' as hh
+    rw [hh] at hpf
+    simp only [] at hpf
+    obtain ⟨hI', hst⟩ := sinv_step hs hset hg hI hr.1 hra.1 hh
+    rcases List.mem_cons.mp hy with rfl | hy
+    · exact hst.comm hfit
+    · exact ih σ' hI' (hr.2 _ _ hh) (hra.2 _ _ hh) (hpf _ List.mem_cons_self)
+        (fun x hx => hpf x (List.mem_cons_of_mem _ hx)) y hy
+
+/-- a next-type vote after the own cert vote of the same period carries its value -/
+def NextAfterCert (x y : Snap) : Prop :=
+  ∀ a ∈ x.2, ∀ b ∈ y.2, a.r = b.r → a.p = b.p → a.s = 2 → 3 ≤ b.s → a.v = b.v
+
+theorem nextAfterCert_of (x y : Snap) (hx : AttOK x) (hy : AttOK y) (_hfut : ∀ b ∈ y.2, CFut x.1.pl b)
+    (hh : (∀ a ∈ x.2, CommFact x.1 a) ∧ (∀ b ∈ y.2, CommFact y.1 b) ∧ CommAgree x y) : NextAfterCert x y := by
+  obtain ⟨hcx, hcy, hca⟩ := hh
+  intro a ha b hb er ep h2 h3
+  have fa := (hcx a ha).1 h2
+  have fb := (hcy b hb).2 h3
+  rcases hx with h0 | ⟨a', ha', har, hap, _⟩
+  · rw [h0] at ha; cases ha
+  rcases hy with h0 | ⟨b', hb', hbr, hbp, _⟩
+  · rw [h0] at hb; cases hb
+  rw [ha'] at ha; rw [hb'] at hb
+  simp only [List.mem_singleton] at ha hb
+  subst ha; subst hb
+  have hsp : SamePer x.1.pl y.1.pl := ⟨by rw [← har, ← hbr, er], by rw [← hap, ← hbp, ep]⟩
+  rw [har, hap] at fa
+  rw [← er, ← ep, har, hap] at fb
+  have := hca hsp a.v fa
+  rcases fb with fb | fb
+  · rw [this] at fb
+    simpa using fb
+  · rw [this] at fb; cases fb
+
+theorem pairwise_and_both {α : Type} {A : α → Prop} {B : α → α → Prop} : ∀ (l : List α), (∀ x ∈ l, A x) → l.Pairwise B →
+    l.Pairwise (fun x y => A x ∧ A y ∧ B x y) := by
+  intro l
+  induction l with
+  | nil => intro _ _; exact List.Pairwise.nil
+  | cons a rest ih =>
+    intro hA hB
+    obtain ⟨h1, h2⟩ := List.pairwise_cons.mp hB
+    exact List.pairwise_cons.mpr ⟨fun y hy => ⟨hA a List.mem_cons_self, hA y (List.mem_cons_of_mem _ hy), h1 y hy⟩,
+      ih (fun x hx => hA x (List.mem_cons_of_mem _ hx)) h2⟩
+
+/-- `NextAfterCert` on single attests: `a` earlier than `b` -/
+def NacA (a b : Attest) : Prop := a.r = b.r → a.p = b.p → a.s = 2 → 3 ≤ b.s → a.v = b.v
+
+theorem allAtts_nextAfterCert (hs : GSpec P good G) (hset : ∀ r p vw, G r p vw → vw.staging ≠ 0 → vw.set = true)
+    (hg : GoodSpec good) (es : List Player.Event) (σ : State) (hI : SInv P good G σ) (hr : RunOK P good σ es)
+    (hra : RunOKA P σ es) (hfit : σ.pl.period + 1 < 18446744073709551616) (hpf : PeriodsFit (snaps P σ es))
+    (hcs : CommStable (snaps P σ es)) : (allAtts P σ es).Pairwise NacA := by
+  unfold allAtts
+  rw [List.pairwise_flatMap]
+  refine ⟨fun y hy => attOK_pairwise (attests_in_period hs hset hg es σ hI hr hra y hy) _, ?_⟩
+  exact snaps_pairwise hs hset hg nextAfterCert_of es σ hI hr hra
+    (pairwise_and_both (A := fun y : Snap => ∀ b ∈ y.2, CommFact y.1 b) _
+      (snaps_comm hs hset hg es σ hI hr hra hfit hpf) hcs)
+
 end AlgoVerif.Lemmas.PlayerAttest
